@@ -165,6 +165,7 @@ def restoreLineBuffer (s : St) : St :=
 def walk (s : St) (pos : Int) : G St := do
   let n : Int := s.src.length
   if n = 0 then return s
+  if pos = 0 then return s
   if s.hpos = n ∧ pos = 1 then return s
   let mut s := s
   if s.hpos = -1 ∧ pos > 0 then
